@@ -117,12 +117,28 @@ def run(E: Engine, rep: Report, tier: str) -> dict:
     # deserializer basis -> class table
     dc = E.fn("pulser.json.abstract_repr.deserializer._deserialize_channel")
     table: dict[str, set] = {}
-    for n in ast.walk(dc.node):
-        if isinstance(n, ast.If) and isinstance(n.test, ast.Compare) and norm(n.test.left) == "obj['basis']" and isinstance(n.test.comparators[0], ast.Constant):
-            b = n.test.comparators[0].value
-            for s in ast.walk(ast.Module(body=n.body, type_ignores=[])):
-                if isinstance(s, ast.Assign) and isinstance(s.targets[0], ast.Name) and s.targets[0].id == "channel_cls" and isinstance(s.value, ast.Name):
-                    table.setdefault(b, set()).add(s.value.id)
+    from .. import sym as _symc
+    from .symutil import S as _Sc, branches as _brc, finite_maps as _fmc, is_ as _isc, unobj as _unc
+
+    for l in _Sc(E, dc).logged("return"):
+        v = _unc(l.value) if l.value is not None else None
+        if v is None or v[0] != "call":
+            continue
+        # the class that is instantiated, per basis: a conditional chain over obj["basis"] or a lookup table
+        for conds_, leaf_ in _brc(v[1]):
+            for c_ in conds_:
+                for x in _symc.conj_of(c_):
+                    m_ = _isc(x, "obj['basis'] == Q_b")
+                    if m_ is not None and m_["Q_b"][0] == "const" and _unc(leaf_)[0] == "name":
+                        table.setdefault(m_["Q_b"][1], set()).add(_unc(leaf_)[1])
+        for subj, tab in _fmc(v[1]):
+            if _symc.contains(subj, _symc.Pattern("obj['basis']").term):
+                for k_, val_ in tab.items():
+                    for _c2, leaf2 in _brc(val_):
+                        if _unc(leaf2)[0] == "name":
+                            table.setdefault(k_, set()).add(_unc(leaf2)[1])
+    if not table:
+        raise AnalysisError("anchor: the basis -> channel class selection of _deserialize_channel was not found")
     for cname, c in classes.items():
         b = _basis_of(E, c)
         rep.check(cname in table.get(b, set()), "TABLE", f"deserializer|basis->{cname}", f"basis '{b}' decodes to {cname}", f"_deserialize_channel maps basis '{b}' to {sorted(table.get(b, set()))}, not to {cname}", E.where(dc))
@@ -336,13 +352,28 @@ def _observables(E: Engine, rep: Report) -> None:
                 base_keys |= {k.value for k in n.keys if isinstance(k, ast.Constant)}
     dser = E.fn("pulser.json.abstract_repr.backend._deserialize_observable")
     handled: dict[str, str] = {}
-    for n in ast.walk(dser.node):
-        if isinstance(n, ast.If) and isinstance(n.test, ast.Compare) and norm(n.test.left) == "obs_name" and isinstance(n.test.comparators[0], ast.Constant):
-            ctor = None
-            for s in ast.walk(ast.Module(body=n.body, type_ignores=[])):
-                if isinstance(s, ast.Return) and isinstance(s.value, ast.Call):
-                    ctor = dotted(s.value.func)
-            handled[n.test.comparators[0].value] = ctor or "?"
+    from .. import sym as _symo
+    from .symutil import S as _So, finite_maps as _fmo, unobj as _uno
+
+    # tag -> constructor, from the returns of the decoder: each is reached under `<tag expr> == "<tag>"`
+    # (the tag expression is whatever the function pops from the 'observable' key), or through a lookup table
+    for l in _So(E, dser).logged("return"):
+        v = _uno(l.value) if l.value is not None else None
+        if v is None or v[0] != "call":
+            continue
+        ctor = _symo.show(v[1]) if v[1][0] in ("name", "attr") else None
+        for x in _symo.conj_of(l.cond):
+            if x[0] == "cmp" and x[1] == "Eq":
+                for a_, b_ in ((x[2], x[3]), (x[3], x[2])):
+                    if b_[0] == "const" and isinstance(b_[1], str) and any(t[0] == "const" and t[1] == "observable" for t in _symo.subterms(a_)):
+                        handled[b_[1]] = ctor or "?"
+        for subj, tab in _fmo(v[1]):
+            if any(t[0] == "const" and t[1] == "observable" for t in _symo.subterms(subj)):
+                for k_, val_ in tab.items():
+                    if isinstance(k_, str) and _uno(val_)[0] == "name":
+                        handled[k_] = _uno(val_)[1]
+    if len(handled) < 5:
+        raise AnalysisError(f"anchor: the tag -> observable table of _deserialize_observable was not found (got {sorted(handled)})")
     cfg = P.schemas["config-schema.json"]
     tags: dict[str, ClassInfo] = {}
     for c in subs:
